@@ -37,7 +37,7 @@ extern "C" int h_c09_tree() {
   ezc3d::c3d* c = start >= 1 ? new ezc3d::c3d("in.c3d") : new ezc3d::c3d();
   for (int k = 0; k < depth; ++k) {
     dump_tree(*c, "before");
-    unsigned op = __vp_choice("op", 7);
+    unsigned op = __vp_choice("op", 8);
     __vp_tag("call"); __vp_obs_u64("op", op);
     int out = 0;
     try {
@@ -60,6 +60,14 @@ extern "C" int h_c09_tree() {
       } else if (op == 4) c->lockGroup(start == 2 ? "EXTRA" : "FORCE_PLATFORM");
       else if (op == 5) c->unlockGroup(start == 2 ? "EXTRA" : "FORCE_PLATFORM");
       else if (op == 6) c->lockGroup("ANALOG");
+      else if (op == 7) {   // a parameter that lives in this very object is handed over for a NEW group (the tree grows while the argument is read)
+        std::string g("Copy"); g.push_back(char('0' + c->parameters().nbGroups() % 10));
+        __vp_obs_bytes("group", g.data(), g.size());
+        const Param& own = c->parameters().group(0).parameter(0);
+        __vp_tag("given"); dump_param(own, false);
+        c->parameter(g, own);
+        __vp_tag("lookup"); dump_param(c->parameters().group(g).parameter(own.name()), false);
+      }
     } catch (...) { out = classify(); }
     __vp_tag("outcome"); __vp_obs_u64("outcome", out);
     dump_tree(*c, "after");
